@@ -61,6 +61,7 @@ T_CHANNEL = 8.0      # bound for channels to open / carry a message once connect
 T_SETTLE = 0.6      # grace period once every transport of the session has settled
 T_CALL = 20.0        # bound for one API call (gathering included)
 T_CLOSE = 10.0
+T_JOB = 150          # seconds, watchdog for one configuration (all rounds + close)
 
 
 def _dbg(*a):
@@ -261,6 +262,14 @@ async def _wait(pred, timeout, stop=None):
         await asyncio.sleep(0.004)
 
 
+def _st(tp):
+    return tp.state if tp is not None else "none"
+
+
+def _ice(tp):
+    return tp.transport.state if tp is not None and tp.transport is not None else "none"
+
+
 def _observe(peer, desc):
     """Cheap facts about the real objects (used for signatures / agreement, not by the oracle)."""
     pc = peer.pc
@@ -283,10 +292,10 @@ def _observe(peer, desc):
     tagged = desc["bundle"][0][0] if desc["bundle"] and desc["bundle"][0] else ""
     return {"policy": peer.policy, "unassoc": sum(1 for t in pc.getTransceivers() if t.mid is None),
             "sctp_unassoc": pc.sctp is not None and pc.sctp.mid is None,
-            "idle_new": any(id(tp) not in assoc and tp.state == "new" for tp in idle),
-            "tstates": [by_mid[m["mid"]].state if m["mid"] in by_mid else "none" for m in desc["media"]],
-            "primary": by_mid[tagged].state if tagged in by_mid else "none",
-            "primary_ice": by_mid[tagged].transport.state if tagged in by_mid else "none",
+            "idle_new": any(id(tp) not in assoc and _st(tp) == "new" for tp in idle),
+            "tstates": [_st(by_mid[m["mid"]]) if m["mid"] in by_mid else "none" for m in desc["media"]],
+            "primary": _st(by_mid[tagged]) if tagged in by_mid else "none",
+            "primary_ice": _ice(by_mid[tagged]) if tagged in by_mid else "none",
             "conn": pc.connectionState, "sig": pc.signalingState}
 
 
@@ -364,9 +373,9 @@ async def _round(A, B, rd, idx, bg):
         """Nothing more can happen to connectionState: a transport of the session is
         closed/failed, or every transport of the session has completed its handshake."""
         tps = session_transports(off) + session_transports(ans)
-        if any(tp.state in ("closed", "failed") or tp.transport.state in ("closed", "failed") for tp in tps):
+        if any(_st(tp) in ("closed", "failed", "none") or _ice(tp) in ("closed", "failed", "none") for tp in tps):
             return True
-        return bool(tps) and all(tp.state == "connected" for tp in tps)
+        return bool(tps) and all(_st(tp) == "connected" for tp in tps)
 
     def both_connected():
         return off.pc.connectionState == "connected" and ans.pc.connectionState == "connected"
@@ -412,7 +421,11 @@ async def _round(A, B, rd, idx, bg):
     return rec
 
 
-async def _execute(cfg):
+class Watchdog(Exception):
+    """A configuration did not finish within T_JOB (something blocks the event loop)."""
+
+
+async def _execute(cfg, rounds, progress):
     loop = asyncio.get_running_loop()
     bg = []
 
@@ -423,14 +436,15 @@ async def _execute(cfg):
     loop.set_exception_handler(handler)
     A = Peer("A", cfg["A"])
     B = Peer("B", cfg["B"])
-    rounds = []
     try:
         for idx, rd in enumerate(cfg["rounds"]):
+            progress["phase"] = "round%d" % idx
             rec = await _round(A, B, rd, idx, bg)
             rounds.append(rec)
             if rec["exc"]:
                 break
     finally:
+        progress["phase"] = "closing"
         for p in (A, B):
             try:
                 await asyncio.wait_for(p.pc.close(), T_CLOSE)
@@ -445,22 +459,48 @@ async def _execute(cfg):
 
 
 def execute(cfg):
-    """Run one configuration on a fresh event loop; returns the list of round records."""
+    """Run one configuration on a fresh event loop; returns (round records, note).
+
+    A watchdog (SIGALRM) bounds the whole job: close() of a damaged connection may block the
+    loop in a thread join.  Everything recorded before `closing` is kept (close() is C19's
+    subject, not judged here); a job that blocks earlier cannot be judged."""
+    import signal
+    rounds, progress = [], {"phase": "start"}
+
+    def on_alarm(signum, frame):
+        raise Watchdog(progress["phase"])
+
+    old = signal.signal(signal.SIGALRM, on_alarm)
+    signal.alarm(T_JOB)
     loop = asyncio.new_event_loop()
+    note = ""
     try:
         asyncio.set_event_loop(loop)
-        return loop.run_until_complete(asyncio.wait_for(_execute(cfg), 120))
-    finally:
         try:
-            pending = [t for t in asyncio.all_tasks(loop) if not t.done()]
-            for t in pending:
-                t.cancel()
-            if pending:
-                loop.run_until_complete(asyncio.gather(*pending, return_exceptions=True))
-        except Exception:
+            loop.run_until_complete(_execute(cfg, rounds, progress))
+        except Watchdog as w:
+            if str(w) != "closing":
+                raise
+            note = "close() did not return within the job bound"
+    finally:
+        signal.alarm(0)
+        signal.signal(signal.SIGALRM, old)
+        try:
+            if not note:
+                pending = [t for t in asyncio.all_tasks(loop) if not t.done()]
+                for t in pending:
+                    t.cancel()
+                if pending:
+                    loop.run_until_complete(asyncio.wait_for(asyncio.gather(*pending, return_exceptions=True), 5))
+        except BaseException:
             pass
         asyncio.set_event_loop(None)
-        loop.close()
+        if not note:
+            try:
+                loop.close()
+            except Exception:
+                pass
+    return rounds, note
 
 
 # ----------------------------------------------------------------------------- configurations
@@ -552,6 +592,7 @@ REGRESS = [
     _c("max-bundle", "balanced", ("A", [_DC, _TA], [])),
     _c("balanced", "max-bundle", ("A", [_TA, _DC], [_DC])),
     _c("max-compat", "max-bundle", ("A", [_TA], [_DC]), ("A", [_DC], [])),
+    _c("balanced", "max-bundle", ("A", [_TV], [_TA, {"how": "trx", "kind": "video", "dir": "sendrecv"}]), ("B", [], [])),
     # F03-unnegotiated-transport-counts
     _c("balanced", "balanced", ("A", [_TA], [_DC])),
     _c("balanced", "max-compat", ("A", [_TV, _DC], [_TA]), ("B", [], [])),
@@ -565,13 +606,15 @@ def _worker(job):
     """Executed in a pool process: run one configuration, return its trace."""
     tid, src, cfg = job
     t0 = time.time()
+    note = ""
     try:
-        rounds = execute(cfg)
+        rounds, note = execute(cfg)
         err = ""
     except Exception as e:  # harness/machinery problem, not a verdict
         rounds = []
         err = "%s:%s" % (type(e).__name__, str(e)[:200])
-    return {"id": tid, "src": src, "cfg": cfg, "rounds": rounds, "err": err, "wall": round(time.time() - t0, 3)}
+    return {"id": tid, "src": src, "cfg": cfg, "rounds": rounds, "err": err, "note": note,
+            "wall": round(time.time() - t0, 3)}
 
 
 def make_pool(nproc):
@@ -816,7 +859,8 @@ def run():
                         ("parameters", dict(PARAMS, maxa=2, maxadd=1) if thorough else PARAMS)]
             if thorough:
                 exh_cfgs.append(("parameters-answerer", dict(PARAMS_B, maxb=2)))
-                exh_cfgs.append(("structure-answerer", dict(STRUCT, maxa=2, maxb=2, maxaddans=1)))
+                exh_cfgs.append(("structure-answerer", dict(STRUCT, maxa=2, maxb=2, maxaddans=1,
+                                                            pola='{"balanced","max-bundle"}')))
             for name, c in exh_cfgs:
                 t1 = time.time()
                 exh = T.tlc(sc, "Negotiation", MODEL_CFG % c, workers=8, timeout=2400 if thorough else 240)
@@ -897,7 +941,7 @@ def run():
                 raise T.MachineryError("actions never taken in %d behaviours: %s" % (len(behs), missing))
             timing["tlc_witness_deviation_simulate_s"] = round(time.time() - t1, 1)
             fut_sim = [pool.submit(_worker, j) for j in sim_jobs]
-            traces = [f.result(timeout=1800) for f in fut_rand + fut_sim]
+            traces = [f.result(timeout=2400) for f in fut_rand + fut_sim]
             timing["executions_s"] = round(time.time() - t0, 1)
             errs = [t for t in traces if t["err"]]
             if errs:
@@ -933,6 +977,14 @@ def run():
             bind = {}
             ok_media = [t for t in traces if verdicts[t["id"]][0] == "ok" and t["rounds"][0]["dirs"]
                         and t["rounds"][0]["answer"]["media"][0]["kind"] in KINDS]
+            bind_src = "recorded"
+            if not ok_media:
+                # nothing was accepted on this tree: corrupt a round record of the model instead
+                bind_src = "model"
+                ok_media = [{"id": 0, "rounds": [dict(rd, offer_seen=rd["offer"], answer_seen=rd["answer"]) for rd in res]}
+                            for res in expected.values()
+                            if all(rd["exc"] == "" and rd["connOff"] == "connected" and rd["connAns"] == "connected"
+                                   for rd in res) and res[0]["dirs"] and res[0]["answer"]["media"][0]["kind"] in KINDS]
             if not ok_media:
                 raise T.MachineryError("binding self-test: no accepted trace with a media section")
             hows = ("payload_type", "setup", "mid", "dirs", "ext", "conn")
@@ -996,9 +1048,10 @@ def run():
             "lockstep_configurations": len(expected), "lockstep_configurations_in_full_agreement": agree_cfgs,
             "lockstep_fields_compared": fields, "lockstep_first_disagreements": disagreements,
             "sdp_text_roundtrip_rounds_equal": roundtrip_ok, "sdp_text_roundtrip_rounds": rounds_total,
-            "binding_selftest": bind,
+            "binding_selftest": bind, "binding_selftest_source": bind_src,
             "trace_validation_states": val.distinct,
             "mean_execution_s": round(sum(t["wall"] for t in traces) / max(1, len(traces)), 3),
+            "close_did_not_return": sum(1 for t in traces if t.get("note")),
             "pool_processes": nproc, "timing": timing,
             "samples": sample,
         }
